@@ -580,6 +580,8 @@ def label_call(ctx, call, exp, col, sets, layouts, k, prev_build):
     rad = call["max_distance"]
     if rad.get("np_type"):
         ctx.label("distance-np-" + rad["np_type"])
+    if rad.get("fmt"):
+        ctx.label("distance-spelling-" + rad["fmt"]["num"])
     ctx.label("distance-number" if rad["style"] == "number" else
               "distance-" + (UNIT_CLASS[rad["unit"]] if rad["unit"]
                              else "bare-string"))
@@ -639,6 +641,10 @@ def distance_specs(r_nominal=None, lo=0.001, hi=2000.0):
             st.booleans())
         spec = {"value": value, "unit": unit, "style": style,
                 "as_int": as_int}
+        if style != "number":
+            fmt = draw(P.text_formats())
+            if fmt is not None:
+                spec["fmt"] = fmt
         if style == "number" and draw(st.sampled_from([False, False, True])):
             # the number as NumPy scalar (same reference distance)
             spec["np_type"] = draw(st.sampled_from(
